@@ -18,6 +18,7 @@ def main():
     opts = sys.argv[4:]
     tier = opts[opts.index("--tier") + 1] if "--tier" in opts else "quick"
     props = opts[opts.index("--props") + 1].split(",") if "--props" in opts else [prop]
+    seeds = opts[opts.index("--seeds") + 1].split(",") if "--seeds" in opts else ["1"]
     wt = f"/tmp/seedeval-{sid}"
     sh(f"git -C /repo worktree remove --force {wt}"); shutil.rmtree(wt, ignore_errors=True)
     r = sh(f"git -C /repo worktree add -q --detach {wt} HEAD")
@@ -55,18 +56,26 @@ def main():
                 out["tests_solvors"] = t.stdout.strip()[-300:]
             out["checks"] = {}
             for p in props:
-                env2 = dict(os.environ, VERIF_REPO=wt, PYTHONHASHSEED="0", PYTHONPATH="/verif/.deps:/verif", VERIF_NO_EVIDENCE="1")
-                t0 = time.time()
-                c = sh(f"/venv/bin/python -m vf.run {p} --tier {tier}", cwd="/verif", env=env2)
-                buckets = sorted({l.split("#")[-1].strip() for l in c.stdout.splitlines() if l.startswith("VIOLATION")})
-                out["checks"][p] = {"exit": c.returncode, "caught": c.returncode == 1, "buckets": buckets, "wall_s": round(time.time() - t0, 1)}
-                if c.returncode not in (0, 1):
-                    out["checks"][p]["stderr"] = c.stderr[-800:]
-                for l in c.stdout.splitlines():
-                    if l.startswith("VIOLATION") and "replay=replays/" in l:
-                        f = l.split("replay=")[1].split()[0]
-                        try: os.remove(os.path.join("/verif", f))
-                        except OSError: pass
+                rec = {"seeds": {}, "buckets": [], "wall_s": 0.0}
+                for sd in seeds:
+                    env2 = dict(os.environ, VERIF_REPO=wt, PYTHONHASHSEED="0", PYTHONPATH="/verif/.deps:/verif", VERIF_NO_EVIDENCE="1", VERIF_SEED=sd)
+                    t0 = time.time()
+                    c = sh(f"/venv/bin/python -m vf.run {p} --tier {tier}", cwd="/verif", env=env2)
+                    buckets = sorted({l.split("#")[-1].strip() for l in c.stdout.splitlines() if l.startswith("VIOLATION")})
+                    rec["seeds"][sd] = c.returncode
+                    rec["buckets"] = sorted(set(rec["buckets"]) | set(buckets))
+                    rec["wall_s"] = round(max(rec["wall_s"], time.time() - t0), 1)
+                    if c.returncode not in (0, 1):
+                        rec["stderr"] = c.stderr[-800:]
+                    for l in c.stdout.splitlines():
+                        if l.startswith("VIOLATION") and "replay=replays/" in l:
+                            f = l.split("replay=")[1].split()[0]
+                            try: os.remove(os.path.join("/verif", f))
+                            except OSError: pass
+                rec["exit"] = 1 if any(v == 1 for v in rec["seeds"].values()) else max(rec["seeds"].values())
+                rec["caught"] = all(v == 1 for v in rec["seeds"].values())
+                rec["caught_seeds"] = f"{sum(1 for v in rec['seeds'].values() if v == 1)}/{len(seeds)}"
+                out["checks"][p] = rec
         dst = f"/verif/seeded/{sid}"
         os.makedirs(dst, exist_ok=True)
         for f in ("patch.diff", "demo.py", "fuzz.py"):
@@ -78,7 +87,7 @@ def main():
         meta["verified_here"] = out
         json.dump(meta, open(os.path.join(dst, "meta.json"), "w"), indent=1)
         ok = out.get("patch_applies") and out["demo_clean"]["exit"] == 0 and out.get("demo_patched", {}).get("exit") == 1
-        print(sid, "CONFIRMED" if ok else "NOT-CONFIRMED", {p: (v["caught"], v["buckets"][:3], v["wall_s"]) for p, v in out.get("checks", {}).items()}, out.get("tests_solvors", ""))
+        print(sid, "CONFIRMED" if ok else "NOT-CONFIRMED", {p: (v["caught_seeds"], v["buckets"][:3], v["wall_s"]) for p, v in out.get("checks", {}).items()}, out.get("tests_solvors", ""))
     finally:
         sh(f"git -C /repo worktree remove --force {wt}"); shutil.rmtree(wt, ignore_errors=True)
 
